@@ -235,8 +235,8 @@ func ruleNetworkSelection(c *Ctx, rule string) {
 				return ok && s == want
 			}, func(v ssa.Value) bool { s, ok := constStringVal(v); return ok && s == "" }))
 			nilAnn := guardEdges(fn, predEq(func(v ssa.Value) bool { return pathEndsWith(v, "Annotations") }, isNilConst))
-			wantENI := guardEdges(fn, predCall("utils.WantENIIP", nil))
-			eniSet := guardEdges(fn, predNeq(func(v ssa.Value) bool { return pathEndsWith(v, "ENIIPNetwork") }, func(v ssa.Value) bool { s, ok := constStringVal(v); return ok && s == "" }))
+			wantENI := guardEdgesX(fn, predCall("utils.WantENIIP", nil))
+			eniSet := guardEdgesX(fn, predNeq(func(v ssa.Value) bool { return pathEndsWith(v, "ENIIPNetwork") }, func(v ssa.Value) bool { s, ok := constStringVal(v); return ok && s == "" }))
 			for _, g := range gets {
 				arg := callArgs(g)[0]
 				switch {
@@ -309,12 +309,12 @@ func ruleNetworkSelection(c *Ctx, rule string) {
 		}
 	}
 	if fn := c.MustFn(rule, galaxyPkg, "setNetInterface"); fn != nil {
-		first := guardEdges(fn, predEq(func(v ssa.Value) bool { return sameParam(v, fn.Params[1]) }, func(v ssa.Value) bool { n, ok := constIntVal(v); return ok && n == 0 }))
+		first := guardEdges(fn, predEq(func(v ssa.Value) bool { return sameParam(v, pAt(fn, 1)) }, func(v ssa.Value) bool { n, ok := constIntVal(v); return ok && n == 0 }))
 		ok := len(first) == 1
 		if ok {
 			r := reachFromEdge(first[0], nil)
 			for _, ret := range returns(fn) {
-				if r.has(ret) && !sameParam(retVal(ret, 0), fn.Params[2]) {
+				if r.has(ret) && !sameParam(retVal(ret, 0), pAt(fn, 2)) {
 					ok = false
 				}
 			}
@@ -323,18 +323,18 @@ func ruleNetworkSelection(c *Ctx, rule string) {
 		if ok {
 			notFirst := []edge{{first[0].from, 1 - first[0].succ}}
 			for _, ret := range returns(fn) {
-				if !sameParam(retVal(ret, 0), fn.Params[2]) && !guardedBy(fn, ret, notFirst) {
+				if !sameParam(retVal(ret, 0), pAt(fn, 2)) && !guardedBy(fn, ret, notFirst) {
 					ok = false
 				}
 			}
 		}
 		c.ob(rule, fn, "the first network gets the interface kubelet named", nil, ok, "idx == 0 returns the argIf parameter, and every other return lies behind the idx != 0 edge")
-		named := guardEdges(fn, predNeq(func(v ssa.Value) bool { return sameParam(v, fn.Params[0]) }, func(v ssa.Value) bool { s, ok := constStringVal(v); return ok && s == "" }))
+		named := guardEdges(fn, predNeq(func(v ssa.Value) bool { return sameParam(v, pAt(fn, 0)) }, func(v ssa.Value) bool { s, ok := constStringVal(v); return ok && s == "" }))
 		ok2 := len(named) == 1
 		if ok2 {
 			r := reachFromEdge(named[0], nil)
 			for _, ret := range returns(fn) {
-				if r.has(ret) && !sameParam(retVal(ret, 0), fn.Params[0]) {
+				if r.has(ret) && !sameParam(retVal(ret, 0), pAt(fn, 0)) {
 					ok2 = false
 				}
 			}
